@@ -360,10 +360,12 @@ def gen_heading(c: Ctx, first: bool, force_h1: bool = False) -> Tuple[List[str],
 
 # --------------------------------------------------------------------------- recipes
 
-INGREDIENTS = ["egg", "onion", "can tomatoes", "pack of {4} buns", "carrot", "crème", "lemon"]
+INGREDIENTS = ["egg", "onion", "can tomatoes", "pack of {4} buns", "carrot", "crème", "lemon",
+               # backslashes in names: unquoted they are kept, inside quotes "\\\\" is one backslash
+               "back\\slash", "dir\\temp\\new folder", "'a\\\\b'", "\"x\\\\1y\"", "c\\\\dir", "egg\\g<0>"]
 UNITS = ["", "", "", " can", " pack", " bunch", " can", "g", " tsp"]
-STEPS = ["fry", "boil", "mix", "chop and fry", "bake for {10} min"]
-NAMES = ["sauce", "dough", "filling", "stock"]
+STEPS = ["fry", "boil", "mix", "chop and fry", "bake for {10} min", "chop\\fry", "mix\\1"]
+NAMES = ["sauce", "dough", "filling", "stock", "sau\\ce"]
 
 
 class RecipeNS:
